@@ -1,5 +1,5 @@
 use crate::distributions::*;
-use crate::functions::gamma;
+use crate::functions::ln_gamma;
 
 /// Implements the [Gamma](https://en.wikipedia.org/wiki/Gamma_distribution) distribution.
 #[derive(Debug, Clone, Copy)]
@@ -103,9 +103,10 @@ impl Continuous for Gamma {
         if x <= 0. {
             return 0.;
         }
-        self.beta.powf(self.alpha) / gamma(self.alpha)
-            * x.powf(self.alpha - 1.)
-            * (-self.beta * x).exp()
+        // evaluated in log space: the factors overflow and underflow separately for large shapes
+        (self.alpha * self.beta.ln() - ln_gamma(self.alpha) + (self.alpha - 1.) * x.ln()
+            - self.beta * x)
+            .exp()
     }
 }
 
